@@ -29,6 +29,9 @@ def run_check(prop, tier, repo_root, quiet=False):
         repo = Repo(repo_root)
         mod = importlib.import_module(f"gv.props.{prop.lower()}")
         ctx = Ctx(prop, repo, tier)
+        from gv.props import shared as _shared
+
+        _shared.pre_lints(ctx)
         mod.check(ctx)
         for e in ctx.soft_deferred:
             print(f"NOT-DECIDED property={prop} rule={e.rule} (shared mechanism) at {e.where}: {e.reason}")
